@@ -58,6 +58,20 @@ pub enum ROp {
     ReadExact(usize),
     FillConsume(usize),
     Seek(usize, usize),
+    /// seek by uncompressed offset through a gzi index built by the harness
+    SeekIndex(u64),
+}
+
+pub fn gzi_of(offs: &[usize], sizes: &[usize]) -> bgzf::gzi::Index {
+    let mut v = Vec::new();
+    let mut u = 0u64;
+    for i in 0..offs.len() {
+        if i > 0 {
+            v.push((offs[i] as u64, u));
+        }
+        u += sizes[i] as u64;
+    }
+    bgzf::gzi::Index::from(v)
 }
 
 #[derive(Debug, PartialEq, Clone)]
@@ -67,6 +81,7 @@ pub enum RObs {
 }
 
 pub struct RCase {
+    pub sizes: Vec<usize>,
     pub name: String,
     pub bytes: Arc<Vec<u8>>,
     pub offs: Vec<usize>,
@@ -131,6 +146,10 @@ pub fn make_case(blocks: &[usize], eof: bool, script: Vec<ROp>) -> RCase {
                 Ok(_) => RObs::Bytes(Vec::new(), u64::from(r.virtual_position())),
                 Err(e) => RObs::Err(e.kind()),
             },
+            ROp::SeekIndex(off) => match r.seek_by_uncompressed_position(&gzi_of(&offs, blocks), off) {
+                Ok(_) => RObs::Bytes(Vec::new(), u64::from(r.virtual_position())),
+                Err(e) => RObs::Err(e.kind()),
+            },
         };
         let stop = matches!(o, RObs::Err(_));
         expect.push(o);
@@ -148,6 +167,7 @@ pub fn make_case(blocks: &[usize], eof: bool, script: Vec<ROp>) -> RCase {
         flat.push(((bytes.len() - 28) as u64, fs, 0));
     }
     RCase {
+        sizes: blocks.to_vec(),
         name: format!("blocks={blocks:?} eof={eof}"),
         bytes: Arc::new(bytes),
         offs,
@@ -183,6 +203,7 @@ pub fn reader_body(ch: &Chooser, cases: &[RCase], workers: &[usize], modes: &[Po
     let script = case.script.clone();
     let offs = case.offs.clone();
     let flen = case.bytes.len();
+    let gzi = gzi_of(&case.offs, &case.sizes);
     let caught = vmc::catch(|| {
         vrt::run(ch, RtConfig::new(w, cost), move || {
             vrt::block_on(async move {
@@ -226,6 +247,10 @@ pub fn reader_body(ch: &Chooser, cases: &[RCase], workers: &[usize], modes: &[Po
                             Err(e) => RObs::Err(e.kind()),
                         },
                         ROp::Seek(b, o) => match r.seek(vpos(&offs, flen, b, o)).await {
+                            Ok(_) => RObs::Bytes(Vec::new(), u64::from(r.virtual_position())),
+                            Err(e) => RObs::Err(e.kind()),
+                        },
+                        ROp::SeekIndex(off) => match r.seek_by_uncompressed_position(&gzi, off).await {
                             Ok(_) => RObs::Bytes(Vec::new(), u64::from(r.virtual_position())),
                             Err(e) => RObs::Err(e.kind()),
                         },
